@@ -433,6 +433,19 @@ func (g *SQLGen) Join6(tables []*model.Table) *proto.NStmt {
 		if !padded && r.Chance(1, 6) {
 			on = g.Cond(nn, 3)
 		}
+		switch r.Intn(24) {
+		case 0, 1:
+			// a condition that is a bare boolean literal: every pair of rows
+			// qualifies or none does - and an outer join still pads
+			on = valExpr(model.LitOp(proto.Bool(r.Bool())))
+		case 2:
+			// (there are no parentheses in the grammar: an OR cannot be an operand of AND)
+			if on.Op != "or" {
+				on = model.And(on, valExpr(model.LitOp(proto.Bool(r.Bool()))))
+			}
+		case 3:
+			on = model.Or(valExpr(model.LitOp(proto.Bool(r.Bool()))), on)
+		}
 		n.From[i].On = on
 	}
 	// after the last join every side touched by an outer join is nullable
@@ -623,6 +636,17 @@ func (g *SQLGen) Agg7(table string, join string) *proto.NStmt {
 			it.Expr = valExpr(&proto.Operand{Col: c})
 			it.Alias = fmt.Sprintf("grp%d", i)
 			ref = proto.Operand{Col: it.Alias}
+			if i == 0 && r.Chance(1, 3) {
+				// the alias is the NAME of another column of the table, one
+				// that aggregates take as their argument: COUNT(v) / AVG(v)
+				// still mean the column, not the aliased grouping column
+				it.Alias = []string{"v", "w", "n0", "nn"}[r.Intn(4)]
+				ref = proto.Operand{Col: c}
+				if r.Bool() {
+					ref.Qual = q
+					it.Expr = valExpr(&proto.Operand{Qual: q, Col: c})
+				}
+			}
 		}
 		gitems = append(gitems, gitem{it, ref})
 	}
